@@ -522,6 +522,15 @@ func runC54(c c54Case, r *ev.Rec) error {
 				if len(x.Chunks) > 0 {
 					keep = append(keep, x)
 				}
+				for _, ch := range x.Chunks {
+					for _, p := range ch.S {
+						if ch.K == 0 && p.V == gen.StaleNaNBits {
+							// generator self-check, see genC54
+							r.Discard()
+							return nil
+						}
+					}
+				}
 			}
 			c.Stores[i].Series = keep
 		}
@@ -1165,6 +1174,21 @@ func genC54(t *rapid.T) c54Case {
 		realOneIn = 12
 	}
 	c.Real = c.Mode != "append" && rapid.IntRange(0, realOneIn-1).Draw(t, "real") == realOneIn/2
+	if c.Real {
+		// the head turns a float staleness marker that follows a histogram sample into a
+		// histogram staleness marker; keep that TSDB feature out of the fanout check
+		for si := range sets {
+			for _, s := range sets[si] {
+				for ci := range s.Chunks {
+					for pi := range s.Chunks[ci].S {
+						if s.Chunks[ci].K == 0 && s.Chunks[ci].S[pi].V == gen.StaleNaNBits {
+							s.Chunks[ci].S[pi].V = gen.NormalNaNBits
+						}
+					}
+				}
+			}
+		}
+	}
 	nsel := 1
 	if c.Mode == "query" || c.Mode == "chunks" {
 		nsel = rapid.SampledFrom([]int{1, 2, 1, 3, 1}).Draw(t, "nsel")
